@@ -46,6 +46,22 @@ def calls(p):
     return [(strip_generics(e[1]), [pathx.desc(a) for a in e[2]["a"]], i) for i, e in enumerate(p.ev) if e[0] == "call"]
 
 
+def globset_origin(ctx, rule):
+    """the origin the CLI filterer works from is the project origin - the same value ignore discovery starts from - not the working directory (shared with C03)"""
+    wn = body_of(ctx, rule, "watchexec_cli::filterer::WatchexecFilterer::new")
+    loc = wn.loc(wn.line)
+    gf = [n for c, n in thir.calls_in(thir.root(wn)) if strip_generics(c).endswith("GlobsetFilterer::new")]
+    plets = [pathx.desc(st["i"]).replace("^", "") for st in thir.walk(thir.root(wn)) if isinstance(st, dict) and st.get("k") == "let" and st["p"].get("k") == "bind"
+             and st["p"].get("n") == "project_origin" and isinstance(st.get("i"), dict)]
+    a0 = pathx.desc(gf[0]["a"][0]).replace("^", "").lstrip("&") if len(gf) == 1 and gf[0]["a"] else None
+    vt = [pathx.desc(n["a"][0]).replace("^", "").lstrip("&") for c, n in thir.calls_in(thir.root(wn)) if strip_generics(c).endswith("dirs::vcs_types") and n.get("a")]
+    okpo = len(plets) == 1 and "args.filtering.project_origin" in plets[0] and "workdir" not in plets[0] and a0 in ("project_origin", "Clone::clone(project_origin)") \
+        and all(v == "project_origin" for v in vt)
+    ctx.require(okpo, rule, "globset-origin", "the filterer's origin (and the VCS type detection) is the project origin from the arguments", loc,
+                detail="project_origin = %s; GlobsetFilterer::new(%s, ..); vcs_types(%s)" % (plets, a0, vt),
+                fail="the filterer is rooted at %s instead of the project origin: ignore files discovered from the project origin are matched relative to a different root" % a0)
+
+
 def run(ctx):
     ctx.level = "other"
     facts = ctx.facts
@@ -113,6 +129,7 @@ def run(ctx):
         ok = len(gf) == 1 and [pathx.desc(a) for a in gf[0]["a"]][1:] == ["filters", "ignores", "whitelist", "ignore_files", "exts"]
         ctx.require(ok, "R12.1", "globset-args", "filters, ignores, whitelist, ignore_files and extensions are handed to GlobsetFilterer::new in that order", loc,
                     detail=str([pathx.desc(a) for a in gf[0]["a"]]) if gf else "")
+        globset_origin(ctx, "R12.1")
         # --filter-file: every listed file is read and all its lines are appended to the same `filters` that goes to the filterer
         ffl = set()
         for p_ in ps[:1] if ps else []:
